@@ -178,8 +178,11 @@ func (kv *KeyValue) CommitBatch(b sorted.BatchMutation) error {
 		return fmt.Errorf("wrong BatchMutation type %T", b)
 	}
 	if bt.err != nil {
-		if err := bt.tx.Rollback(); err != nil {
-			log.Printf("Transaction rollback error: %v", err)
+		// tx is nil when the transaction could not even be started.
+		if bt.tx != nil {
+			if err := bt.tx.Rollback(); err != nil {
+				log.Printf("Transaction rollback error: %v", err)
+			}
 		}
 		return bt.err
 	}
